@@ -5,8 +5,13 @@
                                     any library call: each child is a process without call history
    c16_hist one   <ops> <regions>   like hist, but meant to be exec'ed with a single op (a genuinely fresh process)
 
-   Output: `R <index> <complete outcome of the op>` per op (see xrl_ops.h).  Directives in <ops>:
-     !state     S <LC_ALL locale string> | <LC_NUMERIC> | <cwd> | <FNV-1a of every data region>
+   Output: `R <index> <complete outcome of the op>` per op (see xrl_ops.h); appended to it, when the op had that effect:
+     ` STDOUT+<n>`  the call wrote n bytes to standard output
+     ` LOCALE><s>`  setlocale(LC_ALL, NULL) is <s> after the call and was something else before it (every category, per call)
+     ` ARR!`        the CONTENTS of the built-in crystal array (entries, names, atoms, counts) differ from before the call
+   Directives in <ops>:
+     !state     S <LC_ALL locale string> | <LC_NUMERIC> | <cwd> | <FNV-1a of every data region> | <every locale category> |
+                  <process state: hash of environ, sigaction of eight signals, rounding mode, open descriptors, next rand()/random()>
      !snapshot  keep a copy of every data region
      !diff      D <address> <old byte> <new byte>  for the first bytes that differ from the snapshot
      !end       verify every retained object (error objects, crystal copies, compound data) against the
@@ -17,6 +22,10 @@
 #define _GNU_SOURCE
 #include <locale.h>
 #include <unistd.h>
+#include <signal.h>
+#include <fenv.h>
+#include <fcntl.h>
+#include <sys/stat.h>
 #include <sys/wait.h>
 #include "xrl_ops.h"
 #include "xrayglob.h"
@@ -51,11 +60,48 @@ static void load_regions(const char *path) {
   }
   fclose(f);
 }
+extern char **environ;
+/* process-global state other than locale / cwd / streams: observed without being disturbed (rand(): in a forked child) */
+static void process_state(char *out, size_t cap) {
+  uint64_t h = 1469598103934665603ULL; int nenv = 0;
+  for (char **e = environ; e && *e; e++, nenv++) for (const char *q = *e; ; q++) { h ^= (unsigned char)*q; h *= 1099511628211ULL; if (!*q) break; }
+  size_t n = (size_t)snprintf(out, cap, "env=%d:%016llx sig=", nenv, (unsigned long long)h);
+  static const int sigs[] = { SIGINT, SIGTERM, SIGSEGV, SIGFPE, SIGPIPE, SIGABRT, SIGALRM, SIGCHLD };
+  for (size_t i = 0; i < sizeof sigs / sizeof *sigs && n < cap; i++) {
+    struct sigaction sa; memset(&sa, 0, sizeof sa); sigaction(sigs[i], NULL, &sa);
+    n += (size_t)snprintf(out + n, cap - n, "%d:%lx:%x,", sigs[i], (unsigned long)(uintptr_t)sa.sa_handler, (unsigned)sa.sa_flags);
+  }
+  sigset_t m; sigemptyset(&m); sigprocmask(SIG_BLOCK, NULL, &m); unsigned long mask = 0; for (int i = 1; i < 64; i++) if (sigismember(&m, i) == 1) mask |= 1UL << i;
+  int nfd = 0; for (int fd = 0; fd < 1024; fd++) if (fcntl(fd, F_GETFD) != -1) nfd++;
+  if (n < cap) n += (size_t)snprintf(out + n, cap - n, " mask=%lx round=%d fds=%d umask=", mask, fegetround(), nfd);
+  { mode_t u = umask(0); umask(u); if (n < cap) n += (size_t)snprintf(out + n, cap - n, "%o", (unsigned)u); }
+  int pfd[2]; if (pipe(pfd) == 0) {
+    pid_t p = fork();
+    if (p == 0) { char b[96]; int k = snprintf(b, sizeof b, " rand=%d:%ld:%ld", rand(), random(), lrand48()); if (write(pfd[1], b, (size_t)k) < 0) _exit(1); _exit(0); }
+    close(pfd[1]); char b[96]; ssize_t k = read(pfd[0], b, sizeof b - 1); close(pfd[0]); int st; waitpid(p, &st, 0);
+    if (k > 0 && n < cap) { b[k] = 0; snprintf(out + n, cap - n, "%s", b); }
+  }
+}
 static void do_state(void) {
   char cwd[4096]; const char *la = setlocale(LC_ALL, NULL); 
   char lall[1024]; snprintf(lall, sizeof lall, "%s", la ? la : "(null)");
   const char *ln = setlocale(LC_NUMERIC, NULL);
-  printf("S %s | %s | %s | %016llx\n", lall, ln ? ln : "(null)", getcwd(cwd, sizeof cwd) ? cwd : "?", (unsigned long long)hash_regions());
+  char lnum[256]; snprintf(lnum, sizeof lnum, "%s", ln ? ln : "(null)");
+  static const int cats[] = { LC_CTYPE, LC_NUMERIC, LC_TIME, LC_COLLATE, LC_MONETARY, LC_MESSAGES, LC_PAPER, LC_NAME, LC_ADDRESS, LC_TELEPHONE, LC_MEASUREMENT, LC_IDENTIFICATION };
+  static const char *catn[] = { "CTYPE", "NUMERIC", "TIME", "COLLATE", "MONETARY", "MESSAGES", "PAPER", "NAME", "ADDRESS", "TELEPHONE", "MEASUREMENT", "IDENTIFICATION" };
+  char lc[2048]; size_t n = 0; lc[0] = 0;
+  for (size_t i = 0; i < sizeof cats / sizeof *cats && n < sizeof lc; i++) { const char *v = setlocale(cats[i], NULL); n += (size_t)snprintf(lc + n, sizeof lc - n, "%s%s=%s", i ? "," : "", catn[i], v ? v : "(null)"); }
+  char ps[1024]; process_state(ps, sizeof ps);
+  printf("S %s | %s | %s | %016llx | %s | %s\n", lall, lnum, getcwd(cwd, sizeof cwd) ? cwd : "?", (unsigned long long)hash_regions(), lc, ps);
+}
+/* per-call observers: the locale (all categories) and the contents of the built-in crystal array */
+static char loc_seen[1024]; static uint64_t arr_seen;
+static void observers_reset(void) { const char *l = setlocale(LC_ALL, NULL); snprintf(loc_seen, sizeof loc_seen, "%s", l ? l : "(null)"); arr_seen = xrl_array_hash(&Crystal_arr); }
+static void observers_after(char *out, size_t cap) {
+  const char *l = setlocale(LC_ALL, NULL); if (!l) l = "(null)";
+  if (strcmp(l, loc_seen)) { size_t n = strlen(out); snprintf(out + n, cap - n, " LOCALE>%s", l); snprintf(loc_seen, sizeof loc_seen, "%s", l); for (char *q = out + n + 8; *q; q++) if (*q == ' ') *q = '_'; }
+  uint64_t a = xrl_array_hash(&Crystal_arr);
+  if (a != arr_seen) { strncat(out, " ARR!", cap - strlen(out) - 1); arr_seen = a; }
 }
 static void directive(const char *d, retained **keep) {
   if (!strcmp(d, "!state")) do_state();
@@ -75,6 +121,7 @@ int main(int argc, char **argv) {
   char *tok[64]; retained *keep = NULL; int idx = 0;
   { int pfd = dup(1); proto = fdopen(pfd, "w"); setvbuf(proto, NULL, _IOLBF, 0);
     FILE *tf = tmpfile(); if (tf) { dup2(fileno(tf), 1); stdout_seen = 0; } }
+  observers_reset();
   while (fgets(line, sizeof line, f)) {
     size_t L = strlen(line); while (L && (line[L - 1] == '\n' || line[L - 1] == '\r')) line[--L] = 0;
     if (!L || line[0] == '#') continue;
@@ -92,12 +139,14 @@ int main(int argc, char **argv) {
       fflush(proto);
       pid_t p = fork();
       if (p == 0) { int ok = xrl_op(&o, tok, nt, NULL); long sd = stray_stdout(); if (sd) { char x[48]; snprintf(x, sizeof x, " STDOUT+%ld", sd); strncat(out, x, sizeof out - strlen(out) - 1); }
+                    observers_after(out, sizeof out);
                     printf("R %d %s\n", idx, ok ? out : "bad-op"); fflush(proto); _exit(0); }
       int st; waitpid(p, &st, 0);
       if (!WIFEXITED(st) || WEXITSTATUS(st) != 0) printf("R %d died %d\n", idx, st);
     } else {
       printf("B %d\n", idx);               /* begin marker: a crash is attributed to this op */
       int ok = xrl_op(&o, tok, nt, &keep); long sd = stray_stdout(); if (sd) { char x[48]; snprintf(x, sizeof x, " STDOUT+%ld", sd); strncat(out, x, sizeof out - strlen(out) - 1); }
+      observers_after(out, sizeof out);
       printf("R %d %s\n", idx, ok ? out : "bad-op");
     }
     idx++;
